@@ -313,12 +313,17 @@ theorem redirectCheck_accepted {kindOf : κ → CertKind} {own : κ} {order : Li
       | false => rw [hr] at h; cases h
       | true => exact ⟨cs, rfl, tryRedirect_true hr⟩
 
+theorem checkSignatureOvc_false (restricted : Bool) (kindOf : κ → CertKind) (order : List RoleKind)
+    (onlyMd : Bool) (md : Metadata ι κ) (m : Msg ι κ) :
+    checkSignatureOvc restricted kindOf order onlyMd false md m = checkSignature restricted kindOf order onlyMd md m := by
+  simp [checkSignatureOvc, checkSignature]
+
 theorem accept_detached_accepted {restricted : Bool} {kindOf : κ → CertKind} {own : κ} {order : List RoleKind}
-    {onlyMd : Bool} {md : Metadata ι κ} {env : Bool} {m : Msg ι κ}
-    (h : (accept restricted kindOf own order onlyMd md (.detached env) m).accepted = true) :
+    {onlyMd ovc must : Bool} {md : Metadata ι κ} {env : Bool} {m : Msg ι κ} (hm : (must || ovc) = true)
+    (h : (accept restricted kindOf own order onlyMd ovc must md (.detached env) m).accepted = true) :
     (redirectCheck kindOf own order md m.issuer m.signer).verdict = .accepted := by
   unfold accept at h
-  simp only at h
+  simp only [hm, if_true] at h
   split at h
   · split at h
     · simpa using h
@@ -327,9 +332,19 @@ theorem accept_detached_accepted {restricted : Bool} {kindOf : κ → CertKind} 
     · simpa using h
     · cases h
 
+theorem accept_detached_env_accepted {restricted : Bool} {kindOf : κ → CertKind} {own : κ} {order : List RoleKind}
+    {onlyMd ovc must : Bool} {md : Metadata ι κ} {m : Msg ι κ}
+    (h : (accept restricted kindOf own order onlyMd ovc must md (.detached true) m).accepted = true) :
+    (checkSignatureOvc restricted kindOf order onlyMd ovc md m).verdict = .accepted := by
+  unfold accept at h
+  simp only [if_true] at h
+  split at h
+  next hx => exact hx
+  next => cases h
+
 theorem accept_after_accepted {restricted : Bool} {kindOf : κ → CertKind} {own : κ} {order : List RoleKind}
-    {onlyMd : Bool} {md : Metadata ι κ} {first : Msg ι κ} {withArg : Bool} {m : Msg ι κ}
-    (h : (accept restricted kindOf own order onlyMd md (.after first withArg) m).accepted = true) :
+    {onlyMd ovc must : Bool} {md : Metadata ι κ} {first : Msg ι κ} {withArg : Bool} {m : Msg ι κ}
+    (h : (accept restricted kindOf own order onlyMd ovc must md (.after first withArg) m).accepted = true) :
     (checkSignature restricted kindOf order onlyMd md first).verdict = .accepted ∧
     (checkSignatureArg restricted kindOf order onlyMd md (if withArg then first.issuer else none) m).verdict
       = .accepted := by
@@ -338,5 +353,39 @@ theorem accept_after_accepted {restricted : Bool} {kindOf : κ → CertKind} {ow
   split at h
   next h1 => exact ⟨h1, by simpa using h⟩
   next => cases h
+
+omit [DecidableEq κ] in
+/-- The metadata-only policy is the stricter one. -/
+theorem KeyOrigin_mono {md : Metadata ι κ} {m : Msg ι κ} (h : KeyOrigin true md m) (b : Bool) : KeyOrigin b md m := by
+  rcases h with h | ⟨hf, _⟩
+  · exact Or.inl h
+  · cases hf
+
+/-- Whenever a value is meant as "on", the code reads it as "on" (top-level options). -/
+theorem policy_le_normCommon (f : CfgForm) (dflt : Bool) (hd : dflt = true) (h : policy f = true) :
+    normCommon dflt f = true := by
+  cases f with
+  | absent => simp [normCommon, hd]
+  | bool b => simpa [policy, meaning, intended, normCommon] using h
+  | int n =>
+    match n with
+    | 0 => simp [policy, meaning, intended] at h
+    | 1 => simp [normCommon]
+    | n + 2 => simp [normCommon]
+  | textTrue => rfl
+  | textFalse => rfl
+  | textEmpty => simp [policy, meaning, intended] at h
+  | textOther => rfl
+
+/-- Per-service options: a value not meant as "on" is read as "off" by the code, and one meant as
+    "on" is read as "on". -/
+theorem meaning_normService (f : CfgForm) : meaning normService f = normService f := by
+  cases f with
+  | int n =>
+    match n with
+    | 0 => rfl
+    | 1 => rfl
+    | n + 2 => simp [meaning, intended]
+  | _ => rfl
 
 end Keys
